@@ -195,7 +195,7 @@ def c06_f8(report, cfg, only=None):
                 report.ok("R6.3", ikey, sample={"fn": "f8_impl", "machine": facts.short(mach, 60), "rounds": 42, "atoms": bv.n_atoms()})
             else:
                 report.violated("R6.3", ikey, "F8 on %s: state byte %d bit %d differs from the specification's E8-based compression function (42 rounds, generated round constants, P8, grouping)"
-                                % (facts.short(mach, 60), i // 8, i % 8))
+                                % (facts.short(mach, 60), i // 8, i % 8), graphs=(got, exp))
         engine_guard(go, report, "R6.3", ikey)
     return n
 
@@ -317,7 +317,7 @@ def c06_finalize(report, cfg, only=None, positions=None):
                     report.ok("R6.4", ikey, sample={"hasher": name, "buffered": p, "blocks": len(blocks)} if p in (0, 1, 63) else None)
                 else:
                     report.violated("R6.4", ikey, "%s finalisation with %d buffered bytes: digest byte %d differs from (0x80, zeros, big-endian bit length; %d block(s); last %d bytes of the state)"
-                                    % (name, p, i // 8, len(blocks), nout))
+                                    % (name, p, i // 8, len(blocks), nout), graphs=(got, exp))
             engine_guard(go, report, "R6.4", ikey)
     return total
 
